@@ -502,12 +502,17 @@ Definition scan_dollar (p : list Z) : res (rnode * list Z) :=
                                         end in
               if closed && is_capture_slot capnum then Ok (mk_ref capnum, q3) else literal
           else if angled && is_group_name_start ch then                (* :892-903 *)
-            do (name, q2) <- scan_capname q ;
-            match q2 with
-            | c :: q3 => if (c =? 125) && is_capture_name name
-                         then Ok (mk_ref (capture_slot_from_name name), q3)
-                         else literal
-            | [] => literal
+            match scan_capname q with                                  (* since /repo 273146b a name that cannot be scanned is no reference *)
+            | Ok (name, q2) =>
+                match q2 with
+                | c :: q3 => if (c =? 125) && is_capture_name name
+                             then Ok (mk_ref (capture_slot_from_name name), q3)
+                             else literal
+                | [] => literal
+                end
+            | Err _ => literal
+            | Crash c => Crash c
+            | Fuel => Fuel
             end
           else if negb angled then                                     (* :904-926 *)
             if ch =? 36 then Ok (mk_one 36, q1)
@@ -804,6 +809,8 @@ Definition dval (ds : list Z) : Z := dval_go 0 ds.
 Definition digits (ds : list Z) : Prop := Forall (fun c => is_digit c = true) ds.
 Definition no_digit_head (p : list Z) : Prop :=
   match p with [] => True | c :: _ => is_digit c = false end.
+(* the text contains no "\u" (a backslash immediately followed by 'u') *)
+Definition no_u_escape (p : list Z) : Prop := forall pre post, p <> pre ++ 92 :: 117 :: post.
 
 Section Grammar.
 Variable is_word_char : Z -> bool.
@@ -825,7 +832,10 @@ Fixpoint compile_items (its : list item) (sb : list Z) : list rtok :=
 
 (* [dollar_form p it rest]: the text p after a '$' starts with a recognised form meaning [it],
    followed by [rest].  (The grammar describes accepted replacements; numbers above MaxInt32
-   and malformed ECMAScript names are rejected by the parser, see parser_error_codes.) *)
+   are rejected by the parser, see parser_error_codes.  Since /repo 273146b an ECMAScript
+   ${name whose name cannot be scanned -- a backslash that does not start a valid \u escape, as
+   in "${n\", "${\x}" -- is NOT rejected any more: no form below matches a name containing a
+   backslash, so by RS_literal the '$' is a literal '$' like every other unrecognised '$'.) *)
 Inductive dollar_form : list Z -> item -> list Z -> Prop :=
 | DF_dollar rest :                                                         (* $$ *)
     dollar_form (36 :: rest) (ILit 36) rest
@@ -864,7 +874,7 @@ Inductive rep_spec : list Z -> list item -> Prop :=
     c <> 36 -> rep_spec s its -> rep_spec (c :: s) (ILit c :: its)
 | RS_form s it rest its :                            (* '$' followed by a recognised form *)
     dollar_form s it rest -> rep_spec rest its -> rep_spec (36 :: s) (it :: its)
-| RS_literal s its :                                 (* any other '$' is a literal '$' *)
+| RS_literal s its :                                 (* any other '$' is a literal '$'; this includes ECMAScript "${" + a name with a bad escape *)
     (forall it rest, ~ dollar_form s it rest) -> rep_spec s its -> rep_spec (36 :: s) (ILit 36 :: its).
 
 End Grammar.
